@@ -777,6 +777,11 @@ struct RcSim
                 c.site("a_lpf_gen"); double const al = a_lpf_gen(fc, ts);
                 c.site("a_hpf_gen"); double const ah = a_hpf_gen(fc, ts);
                 { a_lpf tl; a_hpf th; tl.gen(fc, ts); th.gen(fc, ts); if (bits_of(tl.alpha) != bits_of(al) || bits_of(th.alpha) != bits_of(ah)) { c.fail("cxx-wrapper-disagrees", "a_lpf_gen", "gen() members and a_lpf_gen/a_hpf_gen disagree for fc=%g ts=%g", fc, ts); break; } }
+                { // initialiser macros of the headers
+                    a_lpf ml = A_LPF_2(fc, ts); a_hpf mh = A_HPF_2(fc, ts); a_lpf m1 = A_LPF_1(al); a_hpf h1 = A_HPF_1(ah);
+                    if (bits_of(ml.alpha) != bits_of(al) || bits_of(mh.alpha) != bits_of(ah) || bits_of(A_LPF_GEN(fc, ts)) != bits_of(al) || bits_of(A_HPF_GEN(fc, ts)) != bits_of(ah) || ml.output != 0 || mh.output != 0 || mh.input != 0 || m1.alpha != al || m1.output != 0 || h1.alpha != ah || h1.output != 0 || h1.input != 0)
+                    { c.fail("cxx-wrapper-disagrees", "A_LPF_GEN", "the initialiser macros A_LPF_* / A_HPF_* disagree with a_lpf_gen / a_hpf_gen / a zeroed state for fc=%g ts=%g", fc, ts); break; }
+                }
                 if (!(al >= 0 && al <= 1)) { c.fail("coefficient-outside-unit-interval", "a_lpf_gen", "a_lpf_gen(%g, %g) = %.17g", fc, ts, al); break; }
                 if (!(ah >= 0 && ah <= 1)) { c.fail("coefficient-outside-unit-interval", "a_hpf_gen", "a_hpf_gen(%g, %g) = %.17g", fc, ts, ah); break; }
                 double const prod = fc * ts;
